@@ -392,6 +392,9 @@ func (s *ReceiveStream) cancelReadImpl(errorCode qerr.StreamErrorCode) (queuedNe
 	}
 	s.cancelledLocally = true
 	if s.errorRead || s.cancelledRemotely {
+		// A Read might be waiting for the reliable part of a stream that was reset with
+		// RESET_STREAM_AT: it has to return now.
+		s.signalRead()
 		return false
 	}
 	s.queuedStopSending = true
@@ -462,6 +465,9 @@ func (s *ReceiveStream) handleResetStreamFrameImpl(frame *wire.ResetStreamFrame,
 	}
 	// ignore duplicate RESET_STREAM frames for this stream (after checking their final offset)
 	if s.cancelledRemotely {
+		// The reliable size might have been reduced below the read position,
+		// in which case a blocked Read has to return the reset error now.
+		s.signalRead()
 		return nil
 	}
 
